@@ -709,13 +709,31 @@ func (e *Engine) eval(x Expr, env *evalEnv) Val {
 		c, a, b := e.eval(y.C, env), e.eval(y.A, env), e.eval(y.B, env)
 		return Val{S: ite(c.S, a.S, b.S), T: a.T}
 	case *ESel:
-		// ghost / qualified names first
+		// a selector whose root identifier is a variable of the function is a field access; only otherwise is it a
+		// qualified name (ghost store, package constant)
 		if name := exprName(y); name != "" {
 			if v, ok := env.bound[name]; ok {
 				return v
 			}
-			if v, ok := e.specConst(name, env); ok {
-				return v
+			root := name
+			if i := strings.Index(root, "."); i >= 0 {
+				root = root[:i]
+			}
+			isVar := false
+			if _, ok := env.bound[root]; ok {
+				isVar = true
+			} else if env.lookup != nil {
+				if _, ok := env.lookup(root); ok {
+					isVar = true
+				}
+			}
+			if v, ok := e.ghostConst(name, env); ok {
+				return v // registered ghost stores (module.Field, bank.bal, ...) take precedence
+			}
+			if !isVar {
+				if v, ok := e.specConst(name, env); ok {
+					return v
+				}
 			}
 		}
 		base := e.eval(y.X, env)
